@@ -19,7 +19,7 @@ DecAt(j, g) ==
   IN  [i |-> 0, op |-> "cli", fam |-> "roundtrip", sid |-> "rt" \o ToString(j),
        in |-> in1 @@ [rel |-> <<"decodes_to_input_of", g - 1, BytesToHex(Content(Lens[j], j))>>]]
 \* layouts of the hex text of random bytes
-Ws == <<32, 10, 9, 13, 12>>
+Ws == <<32, 10, 9, 13, 12, 11>>
 NLayouts == IF Thorough THEN 3000 ELSE 150
 LayoutAt(j) ==
   LET len   == PrngNat(K("hl", <<j>>), 40)
@@ -40,10 +40,16 @@ Malformed == <<
   <<255, 254>>, <<48, 120, 195>>, <<48, 120, 97, 98, 195, 40>>,          \* not UTF-8
   <<48, 88, 97, 98>>,                                                     \* 0X prefix (open)
   <<48, 120, 97, 11, 98>>,                                                \* vertical tab (open)
-  <<48, 120, 97, 194, 160, 98>>, <<48, 120, 97, 227, 128, 128, 98>>,     \* NBSP, ideographic space (open)
+  <<48, 120, 97, 194, 160, 98, 48>>, <<48, 120, 97, 227, 128, 128, 98, 49>>, \* NBSP, ideographic space inside an odd count
   <<48, 120>>, <<>>, <<32, 10>>, <<48>>, <<120>>, <<48, 120, 48, 120>>, <<45, 49>>, <<48, 120, 43, 49, 49>>,
   <<48, 120, 97, 98, 0>>, <<48, 120, 239, 188, 145, 239, 188, 146>>       \* NUL, full-width digits
 >>
+\* Unicode whitespace inside valid text is ignored like any other whitespace
+UniWs == << <<194, 160>>, <<227, 128, 128>>, <<226, 128, 131>>, <<194, 133>>, <<226, 128, 168>>, <<11>> >>
+UniAt(j) ==
+  LET w == UniWs[1 + ((j - 1) % Len(UniWs))]
+  IN  CItem("unicode_ws", HexCmd("decode", IF j % 2 = 0 THEN "file" ELSE "stdin",
+                                 <<48>> \o (IF j > Len(UniWs) THEN w ELSE <<>>) \o <<120, 97>> \o w \o <<98, 70>> \o w \o <<102>> \o w))
 MalformedAt(j) == CItem("malformed", HexCmd("decode", IF j % 2 = 0 THEN "file" ELSE "stdin", Malformed[j]))
 \* large malformed input: the fault lies far behind the beginning (nothing may be written before it is found)
 BigBadSizes == <<2047, 2048, 2049, 3000, 5000, 70000>>
@@ -59,12 +65,14 @@ BigBadAt(j) ==
 O1 == 2 * NEnc
 O2 == O1 + NLayouts
 O3 == O2 + Len(Malformed)
-Count == O3 + NBigBad
+O4 == O3 + NBigBad
+Count == O4 + 2 * Len(UniWs)
 ItemAt(g) ==
   IF g <= O1 THEN (IF g % 2 = 1 THEN EncAt((g + 1) \div 2) ELSE DecAt(g \div 2, g))
   ELSE IF g <= O2 THEN LayoutAt(g - O1)
   ELSE IF g <= O3 THEN MalformedAt(g - O2)
-  ELSE BigBadAt(g - O3)
+  ELSE IF g <= O4 THEN BigBadAt(g - O3)
+  ELSE UniAt(g - O4)
 VARIABLE n
 INSTANCE GenBase
 =============================================================================
